@@ -194,6 +194,42 @@ def normalise_code(text, fired):
         text = text[:rs] + 'vx_copy_range(&mut %s, %s, %s, %s)' % (recv, lo, hi, arg.strip()) + text[argc + 1:]
         m = mask(text)
         fired['N16'] = fired.get('N16', 0) + 1
+    # N22: std::cmp::min(A, B) -> (A).min(B)   (cmp::min IS `v1.min(v2)`; Verus specifies Ord::min/max on integers but
+    # not the free functions, whose const-trait signature assume_specification cannot match)
+    m = mask(text)
+    for mm in list(re.finditer(r'(?<![A-Za-z0-9_:])(?:(?:std|core)::)?cmp::(min|max)\(', m))[::-1]:
+        argo = mm.end() - 1
+        argc = match_close(m, argo)
+        inner = m[argo + 1:argc]
+        d2, cut = 0, -1
+        for q in range(len(inner)):
+            if inner[q] in '([{':
+                d2 += 1
+            elif inner[q] in ')]}':
+                d2 -= 1
+            elif inner[q] == ',' and d2 == 0:
+                cut = q
+                break
+        if cut < 0:
+            continue
+        a = text[argo + 1:argo + 1 + cut].strip()
+        b = text[argo + 2 + cut:argc].strip().rstrip(',').strip()
+        text = text[:mm.start()] + '(%s).%s(%s)' % (a, mm.group(1), b) + text[argc + 1:]
+        m = mask(text)
+        fired['N22'] = fired.get('N22', 0) + 1
+    # N23: RECV.choose(&mut rand::thread_rng())  ->  vx_choose(&RECV)   (rand is an external crate: the shim says only that the
+    # answer is an element of the slice, and None exactly for an empty one)
+    m = mask(text)
+    for mm in list(re.finditer(r'\s*\.choose\(\s*&mut\s+rand::thread_rng\(\)\s*\)', m))[::-1]:
+        k = mm.start()
+        while k > 0 and re.match(r'[A-Za-z0-9_.]', m[k - 1]):
+            k -= 1
+        recv = text[k:mm.start()]
+        if not recv:
+            continue
+        text = text[:k] + 'vx_choose(&%s)' % recv + text[mm.end():]
+        m = mask(text)
+        fired['N23'] = fired.get('N23', 0) + 1
     # N8: flatten module paths
     text = code_sub(text, r'(?<![A-Za-z0-9_:])(?:crate|self|super)::(?:[a-z_][a-z0-9_]*::)*(?=[A-Z])', '', fired, 'N8')
     text = code_sub(text, r'(?<![A-Za-z0-9_:])std::io::SeekFrom', 'SeekFrom', fired, 'N8')
@@ -376,7 +412,10 @@ def n10_string_plus_chain(body, fired):
             parts.append(tail[last:i].strip())
             last = i + 1
     parts.append(tail[last:].strip())
-    if len(parts) < 2 or not (parts[0].endswith('.clone()') or parts[0].endswith('.to_string()') or parts[0].startswith('str_concat(')):
+    # a String concatenation: the first operand is visibly an owned String, or a later operand is visibly a &str
+    stringy = (parts[0].endswith('.clone()') or parts[0].endswith('.to_string()') or parts[0].startswith('str_concat(')
+               or any(q.endswith('.as_str()') or re.match(r'^&?"', q) for q in parts[1:]))
+    if len(parts) < 2 or not stringy:
         return body
     expr = parts[0]
     for p in parts[1:]:
@@ -839,7 +878,9 @@ class Gen:
             body2 = n20_anf_tail_chain(body2, fired, qname)
         body2 = n17_ref_into_iter(body2, fired)
         body2 = n13_hoist_iter_temp(body2, fired)
-        for kind, args, slines, tl in sections:
+        # closure ordinals refer to the function as written: apply from the last to the first, so that giving one closure
+        # its types does not renumber the ones before it
+        for kind, args, slines, tl in sorted([x for x in sections if x[0] == 'closure'], key=lambda x: -int(x[1][0])):
             if kind == 'closure':
                 try:
                     body2 = n15_closure_contract(body2, int(args[0]), args[1], args[2], [l for (l, _) in slines], fired, qname)
